@@ -997,6 +997,11 @@ class Exec:
                 return type(v)(v.items[lo:hi])
             i = self.eval(sl, st)
             if isinstance(i, int):
+                if not -len(v.items) <= i < len(v.items):
+                    # a Python list / tuple indexed out of range on this path: an index obligation that fails unless the path is infeasible
+                    if not self.spec_mode:
+                        self.emit(st, "index", self.node_name(node, "idx"), z3.BoolVal(False), self.where(node))
+                    raise Unsupported(f"list index {i} out of range (length {len(v.items)}) at {self.where(node)}")
                 return v.items[i]
             raise Unsupported("symbolic tuple index")
         if isinstance(v, Obj):
